@@ -57,6 +57,8 @@ func init() {
 			{ID: "R02l", Floor: 1, Doc: "the stdin loader of `car extract` marks its input as cleanly consumed only on the io.EOF outcome of BlockReader.Next: any other failure of the verifying reader must not look like the end of the archive to the reads that wait for blocks", Run: ruleR02l},
 			{ID: "R02m", Floor: 1, Doc: "Inspect keeps nothing between calls: it assigns no field of its Reader, so a full (hash-validating) inspection cannot be answered from an earlier quick one", Run: ruleR02m},
 			{ID: "R02n", Floor: 1, Doc: "the verifying readers keep no result between calls beyond what the pinned tree keeps (= R08o)", Run: ruleR08o},
+			{ID: "R02o", Floor: 1, Doc: "the bufio.Reader a root-module CarReader owns came out of the pool: every store to CarReader.br is nil or the result of bufioReaderPool.Get (Next gives it back to the pool; a reader the caller owns would be handed to another CarReader while still in use)", Run: ruleR02o},
+			{ID: "R02p", Floor: 3, Doc: "a full inspection ends its scan cleanly only on the bare io.EOF of the length read; every other read failure (a wrapped or mapped EOF included) is reported, never taken for the end of the archive (= R13b)", Run: ruleR13b},
 		},
 	})
 }
